@@ -1325,3 +1325,36 @@ mod tests {
         assert!(cache.get(&somewhat_similar, 1).is_none());
     }
 }
+
+/// Verification hooks (H5): thin wrappers exposing private pure helpers for differential
+/// evaluation. Compiled only under `--cfg kyrodb_verif`.
+#[cfg(kyrodb_verif)]
+impl QueryHashCache {
+    pub fn verif_hash_embedding(embedding: &[f32]) -> u64 {
+        Self::hash_embedding(embedding)
+    }
+
+    pub fn verif_insert_can_affect_cached_boundary(
+        query_embedding: &[f32],
+        insert_embedding: &[f32],
+        prefix_dims: usize,
+        worst_cached_distance: f32,
+        metric: DistanceMetric,
+    ) -> bool {
+        let query_stats = Self::embedding_stats(query_embedding, prefix_dims);
+        let insert_stats = Self::embedding_stats(insert_embedding, prefix_dims);
+        Self::insert_can_affect_cached_boundary(
+            query_embedding,
+            query_stats,
+            insert_embedding,
+            insert_stats,
+            prefix_dims,
+            worst_cached_distance,
+            metric,
+        )
+    }
+
+    pub fn verif_insert_invalidation_prefix_dims() -> usize {
+        INSERT_INVALIDATION_PREFIX_DIMS
+    }
+}
